@@ -423,7 +423,13 @@ def replay(doc):
     for _ in range(2):
         ch = sched.Chooser(d['choices'])
         s, out = execute(cfg, ch, want_trace=True)
-        verdicts.append(([b[0] for b in judge(cfg, s, out)], s.trace))
+        sigs = []
+        for b in judge(cfg, s, out):
+            sig = b[0]
+            if not sig.startswith('connect-raises'):
+                sig += '|dev0' if ch.cost == 0 else '|dev+'
+            sigs.append(sig)
+        verdicts.append((sigs, s.trace))
     if verdicts[0] != verdicts[1]:
         print("replay: NOT deterministic")
         return 2
